@@ -122,11 +122,12 @@ def gen_x2(thorough):
 
 
 def gen_x3(thorough):
-    argpool = ["''", "'a'", "','", "' '", '0', '1', '-1', '5', 'true', "['a', 'b']", "{'a': 1}"]
+    # integers: every boundary of the receivers' lengths (0..3): -n-1, -n, -1, 0, n-1, n
+    argpool = ["''", "'a'", "','", "' '", '0', '1', '-1', '5', 'true', "['a', 'b']", "{'a': 1}", '2', '3', '-2', '-3', '-4']
     tuples = [()] + [(a,) for a in argpool] + [(a, b) for a in argpool for b in argpool]
     recv = {
         'str': ["''", "'a'", "'a b'", "'Ab1_-é'", "' x\\n'", "'12'", "'-7'", "'0x1F'", "'a,b,,c'", "'l1\\nl2\\r\\nl3\\n'", "'@0@-@1@'", "'aXbXa'", "'0b101'", "'0o17'", "'1.5'", "'abc'"],
-        'list': ['[]', '[1, 2, 3]', "['a', ['b']]", "[1, 'a', true]", "[[1, [2]], 3]"],
+        'list': ['[]', '[1, 2, 3]', "['a', ['b']]", "[1, 'a', true]", "[[1, [2]], 3]", "['z']"],
         'dict': ['{}', "{'b': 1, 'a': 'x'}", "{'k': [1], 'j': {'a': 1}}"],
         'int': ['0', '7', '(-7)', '255'],
         'bool': ['true', 'false'],
@@ -152,7 +153,7 @@ def gen_x3(thorough):
                     yield 'X3:%s.%s/%d' % (ty, m, len(tp)), 'x = %s.%s(%s)\n' % (r, m, ', '.join(tp))
     # keyword arguments
     for r in recv['int']:
-        for kw in ['fill: 0', 'fill: 3', 'fill: 5', 'fill: -1', "fill: 'a'", "format: 'hex'", "format: 'oct'", "format: 'bin'", "format: 'dec'",
+        for kw in ['fill: true', 'fill: false', 'fill: 0', 'fill: 3', 'fill: 5', 'fill: -1', "fill: 'a'", "format: 'hex'", "format: 'oct'", "format: 'bin'", "format: 'dec'",
                    "format: 'x'", 'format: 1', "fill: 4, format: 'dec'", 'bogus: 1', 'fill: 3, fill: 4']:
             yield 'X3:int.to_string/kw', 'x = %s.to_string(%s)\n' % (r, kw)
     for r in recv['list']:
@@ -327,6 +328,13 @@ def judge(text, pool=None):
     try:
         ref = ('ok', {k: canon(v) for k, v in reflang.run_program(text).items()})
     except Unspecified as e:
+        # what the program should evaluate to is not specified - that it must not end in a Python traceback is
+        try:
+            real = pool.run(text)
+        except RecursionError:
+            return 'unspec', str(e)
+        if real[0] == 'internal':
+            return 'internal', real[1]
         return 'unspec', str(e)
     except Fail as e:
         ref = ('fail', str(e))
